@@ -1,7 +1,7 @@
 (* Property C02, refinement of the transcription of ApplyTxToState to the declarative rules of Spec/Rules.v for the
    four staking kinds of transactions: delegate registration, delegate choice, stake, unstake.
    Whenever the model applies a stateless-valid transaction whose version byte is the one of its payload kind, the
-   rules admit it (code 0) and prescribe exactly the same accounts, the same delegate table (as a LIST: same records,
+   rules accept it (code 0) and prescribe exactly the same accounts, the same delegate table (as a LIST: same records,
    same order of records, same order of funds) and the same staked total. *)
 From Virel Require Import Lib.Config Lib.U64 Lib.AMap Lib.CheckLib Model.Emission Model.Ledger Spec.Rules
   Proofs.AMapLemmas Proofs.Conservation Proofs.Pointwise Proofs.Refine Proofs.Staking Proofs.StakedSum.
@@ -533,6 +533,68 @@ Proof.
         destruct (acct_at l a) as [b0 n0 i0 d0]; cbn [bal nonce inc deleg]. f_equal; lia.
   - rewrite R3, Hdl. reflexivity.
   - rewrite R4, Hst. reflexivity.
+Qed.
+
+(* ---------------- all five kinds ---------------- *)
+(* number of incoming-transfer counters a transaction can advance on one account *)
+Definition tx_ctr (t : tx) : N :=
+  match tx_data t with TTransfer outs => N.of_nat (length outs) | _ => 1 end.
+
+Definition refines_to (l1 : ledger) (r : N * ledger) : Prop :=
+  fst r = 0 /\ same_accounts l1 (snd r) /\ dlgs l1 = dlgs (snd r) /\ staked l1 = staked (snd r).
+
+Lemma refines_to_let l1 r :
+  (let '(c, ls) := r in c = 0 /\ same_accounts l1 ls /\ dlgs l1 = dlgs ls /\ staked l1 = staked ls) -> refines_to l1 r.
+Proof. destruct r as [c ls]. exact (fun H => H). Qed.
+
+Theorem tx_refines l t h bh l1 :
+  cfg_ok_fee cfg = true -> ver_ok t = true ->
+  total_bal l < two64 -> wf_tx cfg t -> SInv l ->
+  (forall a, inc (acct_at l a) + tx_ctr t < two64) ->
+  nonce (acct_at l (sgn t)) + 1 < two64 ->
+  h - 1 + unlock_time cfg < two64 ->
+  prevalidate_tx cfg team_key t h = Ok tt ->
+  apply_tx cfg l t h bh (h - 1) = Ok l1 ->
+  refines_to l1 (spec_tx cfg team_key l t h).
+Proof.
+  intros Hcfg Hver Hb Hwf HI Hinc Hnonce Hul Hpre Happ. apply refines_to_let.
+  unfold ver_ok in Hver. unfold tx_ctr in Hinc.
+  destruct (tx_data t) as [os|nl name id|nw pv|sa id pu|sa id] eqn:Hd; cbn [data_version] in Hver.
+  - apply (transfer_refines cfg team_key l t os h bh (h - 1) l1 Hcfg Hd); try assumption.
+    apply Bool.orb_true_iff in Hver. destruct Hver as [Hv|Hv].
+    + apply Bool.andb_true_iff in Hv. destruct Hv as [Hv _]. apply N.eqb_eq in Hv. left. exact Hv.
+    + apply N.eqb_eq in Hv. right. exact Hv.
+  - assert (Hv : tx_version t = 2).
+    { apply Bool.orb_true_iff in Hver. destruct Hver as [Hv|Hv]; [|apply N.eqb_eq in Hv; exact Hv].
+      apply Bool.andb_true_iff in Hv. destruct Hv as [_ Hv]. discriminate Hv. }
+    apply (register_refines l t nl name id h bh (h - 1) l1 Hcfg Hd Hv); assumption.
+  - assert (Hv : tx_version t = 3).
+    { apply Bool.orb_true_iff in Hver. destruct Hver as [Hv|Hv]; [|apply N.eqb_eq in Hv; exact Hv].
+      apply Bool.andb_true_iff in Hv. destruct Hv as [_ Hv]. discriminate Hv. }
+    apply (set_delegate_refines l t nw pv h bh (h - 1) l1 Hcfg Hd Hv); assumption.
+  - assert (Hv : tx_version t = 4).
+    { apply Bool.orb_true_iff in Hver. destruct Hver as [Hv|Hv]; [|apply N.eqb_eq in Hv; exact Hv].
+      apply Bool.andb_true_iff in Hv. destruct Hv as [_ Hv]. discriminate Hv. }
+    apply (stake_refines l t sa id pu h bh (h - 1) l1 Hcfg Hd Hv); try assumption. reflexivity.
+  - assert (Hv : tx_version t = 5).
+    { apply Bool.orb_true_iff in Hver. destruct Hver as [Hv|Hv]; [|apply N.eqb_eq in Hv; exact Hv].
+      apply Bool.andb_true_iff in Hv. destruct Hv as [_ Hv]. discriminate Hv. }
+    apply (unstake_refines l t sa id h bh (h - 1) l1 Hcfg Hd Hv); try assumption. reflexivity.
+Qed.
+
+(* contrapositive: a transaction the rules refuse is refused by the code *)
+Corollary refused_by_rules_refused_by_code l t h bh :
+  cfg_ok_fee cfg = true -> ver_ok t = true ->
+  total_bal l < two64 -> wf_tx cfg t -> SInv l ->
+  (forall a, inc (acct_at l a) + tx_ctr t < two64) ->
+  nonce (acct_at l (sgn t)) + 1 < two64 ->
+  h - 1 + unlock_time cfg < two64 ->
+  prevalidate_tx cfg team_key t h = Ok tt ->
+  fst (spec_tx cfg team_key l t h) <> 0 ->
+  forall l1, apply_tx cfg l t h bh (h - 1) <> Ok l1.
+Proof.
+  intros Hcfg Hver Hb Hwf HI Hinc Hnonce Hul Hpre Hc l1 Happ.
+  destruct (tx_refines l t h bh l1 Hcfg Hver Hb Hwf HI Hinc Hnonce Hul Hpre Happ) as [Hz _]. contradiction.
 Qed.
 
 End Refine2.
